@@ -309,6 +309,12 @@ class Export(object):
                     + f"event count to {l_min} (max {l_max}) in '{l_min}'.",
                     LimitingExportSizeWarning)
 
+        if filter_arr is not None:
+            # The writer only corrects the event count if it stores feature
+            # data. If no event is selected, nothing is stored, and the
+            # event count of the original dataset would be kept.
+            meta["experiment"]["event count"] = int(np.sum(filter_arr))
+
         # Perform actual export
         with RTDCWriter(path,
                         mode="append",
